@@ -1,4 +1,5 @@
-(* C16 — PseudoNetCDFFile.val2idx (core/_files.py): value -> index lookup.
+(* C16 — PseudoNetCDFFile.val2idx (core/_files.py): value -> index lookup, as REPAIRED by
+   fixes/C16-val2idx-{no-inplace-edges,descending,top-edge,scalar-exact}.patch.
    Exact model over Z: every coordinate value, edge and query is an integer in a common
    unit chosen by the caller (the harness uses dyadic numbers so that the library's binary64
    arithmetic is exact where it matters).  Fractional indices are exact fractions num/den.
@@ -14,7 +15,7 @@ Inductive cmode := CNone | CMask | COther.                 (* clean= *)
 Inductive bvar := NoBounds | Edges (es : list Z) | Rows (rs : list (Z * Z)).
 Inductive fval := FNum (num den : Z) | FNan.               (* den > 0 *)
 Inductive cell := Idx (i : Z) | Masked.
-Inductive err := ENotImpl | ENotMono | EOutOfBounds | ECast | EIndex | ETypeErr.
+Inductive err := ENotImpl | ENotMono | EOutOfBounds | EIndex.
 (* result: per query value a cell; whether the out-of-bounds warning was issued; the
    coordinate variable's values after the call (in the model's unit, see [scale_of]) *)
 Inductive outcome := Raised (e : err) | Done (r : list cell) (warned : bool) (coord : list Z).
@@ -23,8 +24,6 @@ Record cfg := Cfg {
   c_m : method; c_b : bmode; c_c : cmode;
   c_lnan : bool;     (* left=np.nan  (false: left=None)  *)
   c_rnan : bool;     (* right=np.nan (false: right=None) *)
-  c_isint : bool;    (* coordinate variable has an integer dtype *)
-  c_scalar : bool;   (* val is a scalar (0-d) rather than an array *)
   c_cs : list Z;     (* coordinate values (centres) *)
   c_bv : bvar }.
 
@@ -75,24 +74,18 @@ Definition INT_MIN : Z := -2147483648.
 (* ---- edges when there is no bounds variable and method='bounds' (HALF units) ------ *)
 Definition uniform (d : list Z) : bool :=
   match d with [] => true | d0 :: _ => forallb (Z.eqb d0) d end.
-(* start = dimvals[:1]; end = dimvals[-1:] are VIEWS: the in-place -=/+= change dimvals *)
-Definition upd_ends (l : list Z) (a b : Z) : list Z :=
-  match l with _ :: t => a :: (removelast t ++ [b]) | [] => [] end.
-(* returns (dimvals after the in-place update, dimevals), both in half units *)
-Definition derive_edges (isint : bool) (cs : list Z) : err + (list Z * list Z) :=
+(* dval = diff/2; start/end are COPIES (astype('d')) extended by half a spacing when the
+   spacing is uniform; dimevals = [start, dimvals[1:] - dval, end].  The coordinate variable is
+   not touched.  Returns (dimvals, dimevals), both in half units. *)
+Definition derive_edges (cs : list Z) : err + (list Z * list Z) :=
   let c2 := map (Z.mul 2) cs in
-  let d := diffs cs in                       (* dval = diff/2, in half units *)
+  let d := diffs cs in                       (* dval, in half units *)
   match d with
   | [] => inl EIndex                         (* dval[0] on an empty array *)
   | _ =>
-    if uniform d then
-      if isint then inl ECast                (* int array -= float: UFuncTypeError *)
-      else
-        let c2' := upd_ends c2 (hd 0 c2 - hd 0 d) (last c2 0 + last d 0) in
-        (* dimvals[1:] - dval is evaluated AFTER the update: its last entry uses the
-           already extended last value *)
-        inr (c2', [hd 0 c2'] ++ sub2 (tl c2') d ++ [last c2' 0])
-    else inr (c2, [hd 0 c2] ++ sub2 (tl c2) d ++ [last c2 0])
+    let mids := sub2 (tl c2) d in
+    if uniform d then inr (c2, [hd 0 c2 - hd 0 d] ++ mids ++ [last c2 0 + last d 0])
+    else inr (c2, [hd 0 c2] ++ mids ++ [last c2 0])
   end.
 
 Definition edges_of_bvar (bv : bvar) : option (list Z) :=
@@ -108,7 +101,7 @@ Definition prep (c : cfg) : err + (Z * list Z * list Z) :=
   | Some es => inr (1, c_cs c, es)
   | None =>
       match c_m c with
-      | MBounds => match derive_edges (c_isint c) (c_cs c) with
+      | MBounds => match derive_edges (c_cs c) with
                    | inl e => inl e | inr (dv, de) => inr (2, dv, de) end
       | _ => inr (1, c_cs c, c_cs c)
       end
@@ -136,13 +129,17 @@ Definition to_cell (m : method) (cm : cmode) (isin : bool) (f : fval) : cell :=
 
 Definition is_out (de : list Z) (x : Z) : bool := (x <? hd 0 de) || (last de 0 <? x).
 
-(* fractional index of one (scaled) query value *)
+(* fractional index of one (scaled) query value.  Descending coordinate: dimevals, dimvals and
+   idx are all reversed, so np.interp sees ascending xp and the index vector n-1 .. 0.
+   On the bounds path the index vector is clamped to dimvals.size - 1 BEFORE interpolating
+   (the last edge closes the last cell; fills given by the caller are left alone). *)
 Definition fidx_one (m : method) (lnan rnan dsc : bool) (dv de : list Z) (x : Z) : fval :=
-  let xp := if is_bounds m then de else dv in
-  let idx0 := zseq 0 (length xp) in
-  let idx := if dsc then rev idx0 else idx0 in    (* dimevals[::-1] is a no-op; only idx is reversed *)
-  let f0 := interp1 lnan rnan xp idx x in
-  if is_bounds m && negb rnan then fmin (lenZ dv - 1) f0 else f0.
+  let xp0 := if is_bounds m then de else dv in
+  let xp := if dsc then rev xp0 else xp0 in
+  let idx0 := zseq 0 (length xp0) in
+  let idx1 := if is_bounds m then map (Z.min (lenZ dv - 1)) idx0 else idx0 in
+  let idx := if dsc then rev idx1 else idx1 in
+  interp1 lnan rnan xp idx x.
 
 Definition cell_one (m : method) (cm : cmode) (lnan rnan dsc : bool) (dv de : list Z) (x : Z) : cell :=
   to_cell m cm (memZ x dv) (fidx_one m lnan rnan dsc dv de x).
@@ -156,10 +153,8 @@ Definition impl_val2idx (c : cfg) (xs : list Z) : outcome :=
       let run (dsc : bool) :=
         let xs' := map (Z.mul s) xs in
         let cells := map (cell_one (c_m c) (c_c c) (c_lnan c) (c_rnan c) dsc dv de) xs' in
-        let out := existsb (is_out de) xs' in
-        (* 0-d val: masked_where gives the MaskedConstant, on which masked_invalid raises *)
-        if c_scalar c && is_exact (c_m c) && is_mask (c_c c) && existsb (fun x => negb (memZ x dv)) xs'
-        then Raised ETypeErr else
+        (* isleft / isright use the (reversed, hence ascending) dimevals *)
+        let out := existsb (is_out (if dsc then rev de else de)) xs' in
         match c_b c with
         | BError => if out then Raised EOutOfBounds else Done cells false dv
         | BWarn => Done cells out dv
@@ -294,22 +289,19 @@ Definition bv_ok (n : nat) (bv : bvar) : bool :=
 Definition dir_edges (c : cfg) : list Z :=
   match edges_of_bvar (c_bv c) with Some es => es | None => c_cs c end.
 
-(* known-defect regions (see known_findings/C16.json) *)
-Definition region_desc (c : cfg) : bool := negb (asc (c_cs c) && asc (dir_edges c)).
-Definition region_alias (c : cfg) : bool :=
-  match c_bv c, c_m c with NoBounds, MBounds => uniform (diffs (c_cs c)) | _, _ => false end.
-Definition top_edge (c : cfg) : Z := last (dir_edges c) 0.
-Definition region_top (c : cfg) (xs : list Z) : bool :=
-  is_bounds (c_m c) && c_rnan c &&
-  match c_bv c with
-  | NoBounds => existsb (fun x => 2 * x =? last (natural_edges (c_cs c)) 0) xs
-  | _ => existsb (fun x => x =? top_edge c) xs
-  end.
+(* direction of the coordinate as the code decides it *)
+Definition is_desc (c : cfg) : bool := desc (dir_edges c).
 
-Definition region_scalar (c : cfg) (xs : list Z) : bool :=
-  c_scalar c && is_exact (c_m c) && is_mask (c_c c) && existsb (fun x => negb (memZ x (c_cs c))) xs.
-
-(* region 0: the domain on which the property is proved *)
+(* the domain on which the property is proved: valid option words, >= 2 strictly monotonic
+   coordinate values, bounds variable of matching length and direction *)
 Definition dom0 (c : cfg) : bool :=
   negb (bad_opts c) && (2 <=? lenZ (c_cs c)) && bv_ok (length (c_cs c)) (c_bv c)
-  && negb (region_desc c) && negb (region_alias c).
+  && ((asc (c_cs c) && asc (dir_edges c)) || (desc (c_cs c) && desc (dir_edges c))).
+
+(* low / high end of a strictly monotonic list, by direction *)
+Definition lo_of (dsc : bool) (l : list Z) : Z := if dsc then last l 0 else hd 0 l.
+Definition hi_of (dsc : bool) (l : list Z) : Z := if dsc then hd 0 l else last l 0.
+Definition mono (dsc : bool) (l : list Z) : bool := if dsc then desc l else asc l.
+(* x lies below lo with left=nan, or above hi with right=nan *)
+Definition nan_out (lnan rnan : bool) (lo hi x : Z) : Prop :=
+  (x < lo /\ lnan = true) \/ (hi < x /\ rnan = true).
